@@ -234,6 +234,8 @@ def check_C10(chk):
     execs, plans, seen = [], [], set()
     for cfg in cfgs:
         exe2 = exe if cfg == 'prod' else build_driver(chk.wd, cfg)
+        if exe2 is None:
+            continue
         chk.cov['builds'].append(cfg)
         ex2 = run_exec_groups(exe2, groups)
         new = 0
